@@ -4,6 +4,7 @@ import (
 	"net/http"
 	"strings"
 	"sync"
+	"sync/atomic"
 
 	"github.com/richiefi/rrrouter/config"
 	"github.com/richiefi/rrrouter/proxy"
@@ -23,6 +24,9 @@ func init() {
 }
 
 var syscMu sync.Mutex
+
+// scWedges counts, per harness process, the requests that got no response at all
+var scWedges int32
 
 type scOp struct {
 	rerr   int  // origin: body read fails after this many bytes (-1: never)
@@ -258,6 +262,11 @@ func syscRun(stream string, id int, force int, ops []scOp) hx.Case {
 		}
 	}
 	impl := hx.Guard(func() []string {
+		if atomic.LoadInt32(&scWedges) >= 4 {
+			// the implementation wedges (requests that get no answer within the client's deadline): a few
+			// witnesses are enough, every further one costs the full deadline again
+			return []string{"skipped-after-repeated-wedges"}
+		}
 		w := theWorld()
 		rule := `{"rules":[{"path":"/c/*","destination":"http://o.test/$1","cache":"c1"`
 		if force > 0 {
@@ -322,6 +331,9 @@ func syscRun(stream string, id int, force int, ops []scOp) hx.Case {
 					}
 				} else {
 					v = w.Do(req.Raw(), o.method == "HEAD")
+				}
+				if v.Framing == "noresponse" {
+					atomic.AddInt32(&scWedges, 1)
 				}
 				w.Quiesce()
 				cs := w.Perf.Take()
